@@ -178,6 +178,7 @@ type Machine struct {
 	pathTag  string
 	spec     int // >0 while executing speculatively (if-conversion)
 	strictFmt int
+	initGlobals map[*ssa.Package]map[*ssa.Global]bool
 }
 
 type deferred struct {
@@ -253,8 +254,62 @@ func (m *Machine) globalAddr(g *ssa.Global) *value {
 	}
 	cell := new(value)
 	*cell = m.zero(g.Type().(*types.Pointer).Elem())
+	if g.Pkg != nil && skipInitPkg(g.Pkg.Pkg.Path()) && !skipPkgs[g.Pkg.Pkg.Path()] && m.initializedByInit(g) {
+		// the package initializer is not run, so this variable's real value is unknown: poison it
+		// (any use ends the path as unsupported) instead of silently using the zero value
+		*cell = poison{"global " + g.String() + " of a package whose init is not interpreted"}
+	}
 	m.globals[g] = cell
 	return cell
+}
+
+// initializedByInit reports whether the package initializer (or an init#N function) mentions g.
+func (m *Machine) initializedByInit(g *ssa.Global) bool {
+	pkg := g.Pkg
+	if m.initGlobals == nil {
+		m.initGlobals = map[*ssa.Package]map[*ssa.Global]bool{}
+	}
+	set, ok := m.initGlobals[pkg]
+	if !ok {
+		set = map[*ssa.Global]bool{}
+		seen := map[*ssa.Function]bool{}
+		var scan func(fn *ssa.Function)
+		scan = func(fn *ssa.Function) {
+			if fn == nil || seen[fn] || fn.Pkg != pkg {
+				return
+			}
+			seen[fn] = true
+			var ops []*ssa.Value
+			for _, b := range fn.Blocks {
+				for _, in := range b.Instrs {
+					ops = in.Operands(ops[:0])
+					for _, op := range ops {
+						if op == nil || *op == nil {
+							continue
+						}
+						switch v := (*op).(type) {
+						case *ssa.Global:
+							if v.Pkg == pkg {
+								set[v] = true
+							}
+						case *ssa.Function:
+							if strings.HasPrefix(v.Name(), "init#") {
+								scan(v)
+							}
+						}
+					}
+				}
+			}
+		}
+		scan(pkg.Func("init"))
+		m.initGlobals[pkg] = set
+	}
+	// process-environment handles are harmless as nil
+	switch g.String() {
+	case "os.Stdout", "os.Stderr", "os.Stdin", "os.Args":
+		return false
+	}
+	return set[g]
 }
 
 // skipInit lists packages whose init has OS/runtime effects and is not run.
@@ -312,10 +367,16 @@ func (m *Machine) RunInit(root *ssa.Package) {
 		}
 		m.runPkgInit(sp)
 	}
+	for _, f := range postInit {
+		f(m)
+	}
 	*m.cfg = saved
 	m.initDone = true
 	m.baseTr = len(m.trail)
 }
+
+// postInit hooks run after the package initialisers (e.g. pure globals of packages whose init is skipped).
+var postInit []func(m *Machine)
 
 func (m *Machine) runPkgInit(sp *ssa.Package) {
 	init := sp.Func("init")
@@ -641,7 +702,21 @@ func (m *Machine) RunPath(fn *ssa.Function) (res PathResult) {
 				m.stats.Unsupported[msg]++
 				res = PathResult{"unsupported", msg}
 			default:
-				panic(r)
+				// interpreter-internal panic (unexpected value kind, e.g. a poisoned global): the path is
+				// not encodable, never a pass
+				msg := "internal: " + fmt.Sprint(r) + " @ " + m.stackString()
+				if os.Getenv("VERIF_DEBUG") != "" {
+					fmt.Println(msg)
+					debug.PrintStack()
+				}
+				m.stats.Unsupported[msg]++
+				res = PathResult{"unsupported", msg}
+			}
+		}
+		if res.Kind == "blocked" {
+			if lbl, ok := m.expectedBlock(); ok { // vrt.ExpectBlock: blocking here is what the harness predicted
+				m.stats.Covers[lbl]++
+				res.Kind = "blocked-expected"
 			}
 		}
 		switch res.Kind {
